@@ -155,6 +155,102 @@ func (mc matrixCell) name() string {
 	return fmt.Sprintf("matrix/%s/%s/%s%v/off%+d/frac%d", mc.layout, mc.cmd.typ, mc.cmd.name, mc.cmd.args, mc.off, mc.frac)
 }
 
+// ---- expiry second boundary values -------------------------------------------
+
+// ttlBoundaryCase: a key of every type is given an expiry whose ABSOLUTE second
+// is a boundary value of the stored uint32 (D17), then the compaction filter
+// and the local-deletion checker run, the key must stay fully visible with the
+// right TTL, a modifying write must build on it and keep the expiry, and the
+// passes run again.
+type ttlBoundaryCase struct {
+	typ     string
+	variant int   // kv: how the expiry is given (EXPIRE / SETEX / SET EX)
+	when    int64 // absolute expiry second aimed at (0: use ttl literally)
+	ttl     int64
+	label   string
+}
+
+func ttlBoundaryCases() []ttlBoundaryCase {
+	const largest = int64(1)<<32 - 3
+	const lazy = 48 * 3600
+	whens := []struct {
+		w int64
+		l string
+	}{
+		{largest, "largest"}, {largest - 1, "largest-1"}, {largest + 1, "largest+1(refused)"},
+		{largest - lazy - 1, "largest-48h-1"}, {largest - lazy, "largest-48h"}, {largest - lazy + 1, "largest-48h+1"},
+		{1<<31 - 1, "2^31-1"}, {1 << 31, "2^31"}, {1<<31 + 1, "2^31+1"},
+	}
+	var out []ttlBoundaryCase
+	for _, typ := range []string{"kv", "hash", "list", "set", "zset"} {
+		variants := 1
+		if typ == "kv" {
+			variants = 3
+		}
+		for v := 0; v < variants; v++ {
+			for _, w := range whens {
+				out = append(out, ttlBoundaryCase{typ: typ, variant: v, when: w.w, label: w.l})
+			}
+			out = append(out, ttlBoundaryCase{typ: typ, variant: v, ttl: 1, label: "ttl=1"})
+			if v == 0 {
+				out = append(out, ttlBoundaryCase{typ: typ, variant: v, ttl: 0, label: "ttl=0"},
+					ttlBoundaryCase{typ: typ, variant: v, ttl: -3, label: "ttl=-3"},
+					ttlBoundaryCase{typ: typ, variant: v, when: -5, label: "when=-5(ttl below -now)"})
+			}
+		}
+	}
+	return out
+}
+
+func (bc ttlBoundaryCase) name() string {
+	return fmt.Sprintf("ttl-boundary/%s/v%d/%s", bc.typ, bc.variant, bc.label)
+}
+
+func (bc ttlBoundaryCase) seq(wall int64) []Op {
+	// log time 30 days behind the wall clock: generations are older than the
+	// filter's 48 h young-generation guard
+	base := wall - c10Offset
+	t, k := "t", "k"
+	ts := base * 1e9
+	next := func() int64 { ts += 1e9; return ts }
+	ttlAt := func(at int64) string {
+		if bc.when != 0 {
+			return fmt.Sprint(bc.when - at/1e9)
+		}
+		return fmt.Sprint(bc.ttl)
+	}
+	var ops []Op
+	exp := map[string]string{"kv": "expire", "hash": "hexpire", "list": "lexpire", "set": "sexpire", "zset": "zexpire"}[bc.typ]
+	switch {
+	case bc.typ == "kv" && bc.variant == 1:
+		at := next()
+		ops = append(ops, Op{Name: "setex", T: t, K: k, A: []string{ttlAt(at), "5"}, Ts: at})
+	case bc.typ == "kv" && bc.variant == 2:
+		at := next()
+		ops = append(ops, Op{Name: "set", T: t, K: k, A: []string{"5", "ex", ttlAt(at)}, Ts: at})
+	default:
+		c := createOps(bc.typ, t, k, 0)[0]
+		c.Ts = next()
+		at := next()
+		ops = append(ops, c, Op{Name: exp, T: t, K: k, A: []string{ttlAt(at)}, Ts: at})
+	}
+	passes := func() {
+		ops = append(ops, Op{Ctl: "compact", Ts: ts}, Op{Ctl: "ttlcheck", Ts: ts}, Op{Name: ttlCmdOf(bc.typ), T: t, K: k})
+	}
+	passes()
+	mod := map[string]Op{
+		"kv":   {Name: "append", T: t, K: k, A: []string{"z"}},
+		"hash": {Name: "hset", T: t, K: k, A: []string{"h", "9"}},
+		"list": {Name: "rpush", T: t, K: k, A: []string{"z"}},
+		"set":  {Name: "sadd", T: t, K: k, A: []string{"z"}},
+		"zset": {Name: "zadd", T: t, K: k, A: []string{"9", "z"}},
+	}[bc.typ]
+	mod.Ts = next()
+	ops = append(ops, mod)
+	passes()
+	return ops
+}
+
 // ---- clear + re-create in the same second / nanosecond ---------------------
 
 type recreateCase struct {
@@ -346,6 +442,18 @@ func runC10(c *vc.Ctx) error {
 		}
 		return caseSpec{Name: rc.name(), Ops: rc.seq(b), Store: st, BaseWall: wall}
 	})
+	// (2b) expiry second boundary values, all four stores
+	tbs := ttlBoundaryCases()
+	cp.run(len(tbs)*4, func(i int) caseSpec {
+		bc := tbs[i/4]
+		st := storeCfgs[i%4]
+		if bc.when < 0 && st.Policy == PolicyLocal {
+			// a negative absolute second has no meaning in the local-deletion time
+			// index (it sorts as a huge unsigned value): wait_compact only
+			return caseSpec{}
+		}
+		return caseSpec{Name: bc.name(), Ops: bc.seq(wall), Store: st, BaseWall: wall}
+	})
 	// (3) random sequences
 	nRand := c.Pick(3000, 250000)
 	cp.run(nRand, func(i int) caseSpec {
@@ -364,10 +472,11 @@ func runC10(c *vc.Ctx) error {
 	cp.finish()
 	ev := c.Ev
 	st := cp.stats
-	ev.Rule = "cases: (1) boundary matrix: for every (type x read-modify-write command) of rmwCommands() a key is created with TTL 10 (KV: SET+EXPIRE, SETEX, SET EX), the command is applied at log second expireAt-1, expireAt, expireAt+1 (first and last nanosecond of that second), then TTL is read and the command is applied again one second later; twice: log time 30 days ahead of the wall clock (reads see everything) and 30 days behind (reads hide everything that has an expiry); mem and pebble. (2) per collection type: create, remove everything (CLEAR / element-wise / trim / rank range), re-create with other members - at one and the same nanosecond, clear+re-create at the same nanosecond, same second, next second; all four stores. (3) random sequences (20-140 commands, PRNG(seed,i)) mixing the C08 command set with EXPIRE/PERSIST/TTL/SETEX/SET EX of every type; half of the log-time steps aim at expireAt-1/expireAt/expireAt+1 of an earlier expiry; compaction (real CompactAllRange/CompactOldExpireData + the real compaction filter applied to every key) resp. a synchronous pass of the local-deletion checker every ~25 commands. The model is driven by the log timestamps (writes) and the wall clock (reads); after every write the stored absolute expire time is compared too. distinct_nontrivial = number of distinct cells (type, command, position of the command's log second relative to the key's expireAt: before/at/after) in which a command met a key that carried an expiry."
+	ev.Rule = "cases: (1) boundary matrix: for every (type x read-modify-write command) of rmwCommands() a key is created with TTL 10 (KV: SET+EXPIRE, SETEX, SET EX), the command is applied at log second expireAt-1, expireAt, expireAt+1 (first and last nanosecond of that second), then TTL is read and the command is applied again one second later; twice: log time 30 days ahead of the wall clock (reads see everything) and 30 days behind (reads hide everything that has an expiry); mem and pebble. (2) per collection type: create, remove everything (CLEAR / element-wise / trim / rank range), re-create with other members - at one and the same nanosecond, clear+re-create at the same nanosecond, same second, next second; all four stores. (2b) expiry-second boundary values: for every type (KV via EXPIRE, SETEX and SET EX) the absolute expiry second is set to the largest accepted value 2^32-3, one below, one above (refused), 48 h below it -1/0/+1 s, 2^31-1/2^31/2^31+1, and TTL 1, 0, -3 and a TTL below -now (negative absolute second); then compaction-filter pass + local-deletion checker pass + TTL read, a modifying write, the passes and TTL again; all four stores. (3) random sequences (20-140 commands, PRNG(seed,i)) mixing the C08 command set with EXPIRE/PERSIST/TTL/SETEX/SET EX of every type; half of the log-time steps aim at expireAt-1/expireAt/expireAt+1 of an earlier expiry; compaction (real CompactAllRange/CompactOldExpireData + the real compaction filter applied to every key) resp. a synchronous pass of the local-deletion checker every ~25 commands. The model is driven by the log timestamps (writes) and the wall clock (reads); after every write the stored absolute expire time is compared too. distinct_nontrivial = number of distinct cells (type, command, position of the command's log second relative to the key's expireAt: before/at/after) in which a command met a key that carried an expiry."
 	ev.Set("boundary_matrix_cells", len(cells))
 	ev.Set("boundary_matrix_executions", len(cells)*2)
 	ev.Set("recreate_cases_executed", len(rcs)*8)
+	ev.Set("ttl_boundary_cases_executed", len(tbs)*4)
 	ev.Set("random_sequences", nRand)
 	ev.Set("commands_meeting_a_key_with_expiry_by_cell", st.C10Cells)
 	ev.Set("harness_actions", st.CtlOps)
